@@ -193,8 +193,13 @@ def same(a, b):
     return True
 
 
+DEFAULTS = {'bin': 0.1, 'eps': 0.0001, 'thr': 0.0001}
+
+
 def ptyped(inp, x, key):
     pt = inp.get('ptype', 'float')
+    if inp.get('defaults') and x == DEFAULTS[key]:
+        return x                     # the argument is omitted from the call: fimo's own Python float
     if pt == 'np64':
         return numpy.float64(x)
     if pt == 'int' and key == 'bin' and float(x) == 1.0:
